@@ -7,7 +7,10 @@ hook_commits = subprocess.run(['git', '-C', '/repo', 'log', '--format=%H', '--gr
 
 PROOF_NOTE = ("Trusted: Lean 4.33 kernel; axioms limited to propext/Classical.choice/Quot.sound (audited per theorem on every run); "
               "the hand-written model is tied to /repo only by the correspondence check (worker built from the working tree vs the model's "
-              "executable definitions, same requests), sampled except on the finite sub-domains it enumerates; Python json/hashlib oracles. ")
+              "executable definitions, same requests), sampled except on the finite sub-domains it enumerates; Python json/hashlib oracles. "
+              "A small translator (lib/srcfacts.py) re-reads, on every run, the parts of the source that are plain facts - the three kind predicates, HEX_INVERSE, "
+              "is_safe_char, the tag-member letter test, every integer constant - into lean/Pocket/Src/*.lean, and the *_from_source theorems prove the model "
+              "agrees with what the source says now (trusted: that translator's ~300 lines). ")
 
 CLAIMS = {
  'C06': dict(
@@ -122,7 +125,7 @@ CLAIMS = {
         "reopening finds the same end and the real length, also when the map is full to its last byte. DELINEATION ON READ (delineate_ignores_what_follows): the event is cut "
         "out exactly however many bytes (4 GiB and more) of later events lie behind it. Correspondence: histories with event sizes 0 B..3 map chunks and exact-fit events, "
         "every returned offset and every id re-read after every step on the real store vs model, the map file's length vs the model's after every step incl. reopen and rebuild; "
-        "Event::delineate on slices continuing 0..3x4 GiB behind the event; direct oracle: bytes equal an independent Python encoding of what was submitted; the file never shrinks.",
+        "Event::delineate on slices continuing 0..3x4 GiB behind the event; direct oracle: bytes equal an independent Python encoding of what was submitted; the file never shrinks. Forced two-thread schedules: two stores of ONE id (same bytes, or different bytes under one id) through every yield point - exactly one offset, the other duplicate, the stored one reads back by id.",
    note=PROOF_NOTE + 'Modelled, not verified: LMDB (ordered maps, snapshot reads inside a write transaction, atomic commit), the mmap-append event map; the seven index tables are modelled as functions of the set of indexed events with range scans as filter+key-order sort. ' + "'Forever' across process restarts relies on the kernel keeping file contents (modelled).",
    technique="Lean 4 proof (invariant by induction over operation sequences) + differential correspondence with a byte-level direct oracle",
    design="6/C04"),
@@ -130,7 +133,7 @@ CLAIMS = {
    text="Lean theorem: for every state and event, if store_event returns anything but Ok, every table (index, id markers, address markers, extra) is exactly "
         "what it was, hence every lookup, marker query, find_events answer and entry count is unchanged; earlier offsets still read back. Direct, model-free "
         "oracle on the real store: the whole probe battery before a failing store equals the battery after it, over histories aimed at failures after "
-        "effects (k-th foreign tag after k-1 own ones, replaced after pre-removal, LMDB key-size error after earlier tags).",
+        "effects (k-th foreign tag after k-1 own ones, replaced after pre-removal, LMDB key-size error after earlier tags). FAULT INJECTION for the "any other error" clause: newer/older versions of an address, deletion requests by id and by address, regular events and duplicates stored while all LMDB reader slots are taken (RDF): whenever the call returns an error the battery is unchanged. REFINEMENT (store_refines_abstract, every_history_refines_abstract): on every reachable state the concrete model computes exactly the abstract store of Spec/AbsStore.lean, for every history incl. vanish and rebuild; on the abstract side the property is three lines (abstract_failed_store). The Lean abstract store follows every history in the driver and is compared with the independently written Python specification after every step (SPC).",
    note=PROOF_NOTE + 'Modelled, not verified: LMDB (ordered maps, snapshot reads inside a write transaction, atomic commit), the mmap-append event map; the seven index tables are modelled as functions of the set of indexed events with range scans as filter+key-order sort. ' + "The bytes of a refused event stay in the map (not an observable of this property; rebuild reclaims them).",
    technique="Lean 4 proof (case analysis of the transaction discipline) + model-free before/after battery oracle + differential correspondence",
    design="6/C12"),
@@ -149,7 +152,7 @@ CLAIMS = {
         "entries and touches nothing else; storing an ephemeral event succeeds and leaves the retrievable set unchanged. In every reachable state vanish removes exactly the events authored by the key plus the "
         "kind-1059 events with a p tag whose value is the key's lower-case hex, and nothing else (vanish_exact, from the completeness of the author and "
         "kind+tag plans). Correspondence + the abstract specification after every step (gift wraps naming the author first / later / as a non-first value / "
-        "in upper case; keys with gift wraps but no events of their own).",
+        "in upper case; keys with gift wraps but no events of their own). Gift wraps whose p value is NOT the key's hex but shares its padded index key or a prefix with it (trailing NULs up to and beyond 182 bytes, one digit short/long, leading space) must survive vanish; episodes wrap + near-miss wraps + own event + vanish.",
    note=PROOF_NOTE + 'Modelled, not verified: LMDB (ordered maps, snapshot reads inside a write transaction, atomic commit), the mmap-append event map; the seven index tables are modelled as functions of the set of indexed events with range scans as filter+key-order sort. ' + "vanish_exact assumes fewer retrievable events than u32::MAX (the two internal queries run without a limit).",
    technique="Lean 4 proof + differential correspondence with the abstract specification as direct oracle",
    design="6/C18"),
@@ -165,7 +168,7 @@ CLAIMS = {
         "tag_index_range_bounds, time/author/author_kind_index_scan): the model's range scans are what a bytewise-ordered table returns between the bounds the *_iter functions "
         "build over the keys key_*_index builds (prefix, big-endian u64::MAX - created_at, id; both bounds inclusive, all-zero and all-ones ids included). Correspondence: ~40 "
         "filters after every step of every history on the real store vs the model (exact answer) and vs ValidAnswer of the abstract specification; the keys the six index tables "
-        "really hold, read back from LMDB in its iteration order through a verif hook, equal the model's keys byte for byte after every step.",
+        "really hold, read back from LMDB in its iteration order through a verif hook, equal the model's keys byte for byte after every step. THE TAG TABLES ROW BY ROW (tag_index_scan, author_tag_index_scan, kind_tag_index_scan, tag_rows_are_dumped_keys): a tag table holds one row per distinct (letter, 182-byte padded value) of each event; a range read over those rows with the bounds tc_iter / atc_iter / ktc_iter compute is exactly the model's scan (each event once, however many of its tags fall on the key), and the rows are the keys the hook dumps.",
    note=PROOF_NOTE + 'Modelled, not verified: LMDB (ordered maps, snapshot reads inside a write transaction, atomic commit), the mmap-append event map; the seven index tables are modelled as functions of the set of indexed events with range scans as filter+key-order sort. ' + "Filters with multi-byte tag names (constructible only with from_parts) are outside the completeness theorems (the tag plans probe by first byte only) and are covered by the correspondence. Of LMDB's ordering only 'a range is iterated in bytewise key order' is assumed (and observed on every step); the list-level scan equality is proved for the time, author and author-kind tables, the range/order facts at key level for the three tag tables.",
    technique="Lean 4 proof (loop invariant over all seven query plans) + differential correspondence + ValidAnswer oracle from the abstract specification",
    design="6/C05"),
@@ -184,7 +187,7 @@ CLAIMS = {
         "that was retrievable stays retrievable and reads back unchanged; no deletion marker appears on another key's stored event; no address marker of "
         "another key changes; over whole histories of events by other keys the victim stays. Correspondence + direct oracle: requests with 0-5 e/a tags "
         "mixing own/foreign/absent/malformed targets at random points of histories; every foreign event retrievable and unmarked afterwards; plus forced "
-        "two-thread schedules: another author's request (by id and by address) overlapping the victim's store at every yield point - a victim stored successfully stays retrievable and unmarked.",
+        "two-thread schedules: another author's request (by id and by address) overlapping the victim's store at every yield point - a victim stored successfully stays retrievable and unmarked. FAULT INJECTION: the request arrives while all 126 LMDB reader slots are taken (worker request RDF), so target lookups fail instead of answering - whatever it replies, the victim stays retrievable and unmarked.",
    note=PROOF_NOTE + 'Modelled, not verified: LMDB (ordered maps, snapshot reads inside a write transaction, atomic commit), the mmap-append event map; the seven index tables are modelled as functions of the set of indexed events with range scans as filter+key-order sort. ' + "Victims are retrievable events; a marker placed on an id that is not stored is the code's documented choice and outside the property.",
    technique="Lean 4 proof (induction over the request's tag list with a confinement invariant) + differential correspondence + direct oracle",
    design="6/C10"),
@@ -197,7 +200,7 @@ CLAIMS = {
         "Covered, by induction over histories incl. rebuild) - so everything an accepted deletion covers is unretrievable in every continuation. "
         "Correspondence + abstract specification after every step: reply classes, the retrievable set and both marker tables with their times; plus forced "
         "two-thread schedules (a deletion request racing with the event it covers, by id and by address, paused at every yield point, both directions) judged "
-        "by the property text: an accepted request leaves the covered event unretrievable and refused on resubmission.",
+        "by the property text: an accepted request leaves the covered event unretrievable and refused on resubmission. Identifiers containing the separator of the kind:author:identifier notation (app:settings, a:b:c, a relay URL) in families, address episodes and requests.",
    note=PROOF_NOTE + 'Modelled, not verified: LMDB (ordered maps, snapshot reads inside a write transaction, atomic commit), the mmap-append event map; the seven index tables are modelled as functions of the set of indexed events with range scans as filter+key-order sort. ' + "Marker placed on an id that is not stored yet: the code's documented choice.",
    technique="Lean 4 proof (marker monotonicity and the Covered invariant by induction over histories) + differential correspondence with the abstract specification",
    design="6/C11"),
@@ -222,7 +225,7 @@ CLAIMS = {
         "Fault enumeration on the real code through the verif hooks: for each step of each history and each named point "
         "and occurrence a child dies there by _exit (incl. mid-copy and during file growth), the parent reopens, compares the battery with the model's "
         "before/after states, and continues the history (after a kill in the growth path long enough for two more growth rounds); the (file length, end) pair found after the reopen "
-        "must be one of the model's durable states; the points hit per call are compared with the model's micro-step list.",
+        "must be one of the model's durable states; the points hit per call are compared with the model's micro-step list. A killed vanish is judged exactly: the ids gone after the reopen are removed one by one from an uninterrupted real store, and the WHOLE battery (entry counts of all tables, author/kind/tag queries, address lookups) and the continuation must equal that reference; every history ends with a vanish of a key that has several targets.",
    note=PROOF_NOTE + 'Modelled, not verified: LMDB (ordered maps, snapshot reads inside a write transaction, atomic commit), the mmap-append event map; the seven index tables are modelled as functions of the set of indexed events with range scans as filter+key-order sort. ' + "PARTIAL: process kill only (page cache survives); LMDB's commit atomicity, the kernel and the absence of compiler/CPU reordering across the SeqCst fence are trusted; torn 8-byte marker stores are not modelled.",
    technique="Lean 4 proof (invariant over micro-step prefixes) + fault enumeration at named kill points with reopen-and-compare",
    design="6/C13"),
@@ -246,7 +249,7 @@ CLAIMS = {
         "step leaves an earlier reference dangling (growth_may_move_witness): the property as stated is FALSE of the code. Check on the real store: addresses and "
         "bytes of all earlier events re-read after every store across growth steps; an address change at a growth step is the recorded KNOWN FINDING (printed, "
         "exit 0); changed bytes or an address change without growth are violations. Forced two-thread schedules: an event stored while another thread's store "
-        "fails (duplicate / invalid deletion / replaced) at every yield point, both directions, must read back whole by id and offset before and after a further store.",
+        "fails (duplicate / invalid deletion / replaced) at every yield point, both directions, must read back whole by id and offset before and after a further store. written_region_survives_store: in the event-map model no store (padding, growth rounds, append) shortens the file or moves the end marker backwards, so the written region [8, end) stays inside the file.",
    note=PROOF_NOTE + 'Modelled, not verified: LMDB (ordered maps, snapshot reads inside a write transaction, atomic commit), the mmap-append event map; the seven index tables are modelled as functions of the set of indexed events with range scans as filter+key-order sort. ' + "PARTIAL / open finding: where the OS places the new mapping is not determined by the program; no small safe repair exists inside pocket (mmap-append maps anew and unmaps the old mapping).",
    technique="Lean 4 proof (validity-iff-base-unchanged, negation witness) + address/byte comparison on the real store with known-findings matching",
    design="6/C15"),
